@@ -535,11 +535,11 @@ static int attr_get_with_type(struct xcm_socket *s, const char *name,
 			      enum xcm_attr_type required_type, void *value,
 			      size_t capacity)
 {
-    enum xcm_attr_type actual_type;
+    enum xcm_attr_type actual_type = required_type;
     int rc = xcm_attr_get(s, name, &actual_type, value, capacity);
 
     if (rc < 0) {
-	if (errno == EOVERFLOW)
+	if (errno == EOVERFLOW && actual_type != required_type)
 	    errno = ENOENT; /* wrong type */
 	return -1;
     }
@@ -576,37 +576,13 @@ int xcm_attr_get_double(struct xcm_socket *s, const char *name,
 int xcm_attr_get_str(struct xcm_socket *s, const char *name,
 		     char *value, size_t capacity)
 {
-    enum xcm_attr_type type;
-
-    int rc = xcm_attr_get(s, name, &type, value, capacity);
-
-    if (rc < 0)
-	return -1;
-
-    if (type != xcm_attr_type_str) {
-	errno = ENOENT;
-	return -1;
-    }
-
-    return rc;
+    return attr_get_with_type(s, name, xcm_attr_type_str, value, capacity);
 }
 
 int xcm_attr_get_bin(struct xcm_socket *s, const char *name,
 		     void *value, size_t capacity)
 {
-    enum xcm_attr_type type;
-
-    int rc = xcm_attr_get(s, name, &type, value, capacity);
-
-    if (rc < 0)
-	return -1;
-
-    if (type != xcm_attr_type_bin) {
-	errno = ENOENT;
-	return -1;
-    }
-
-    return rc;
+    return attr_get_with_type(s, name, xcm_attr_type_bin, value, capacity);
 }
 
 int xcm_attr_get_list_len(struct xcm_socket *s, const char *name)
